@@ -36,6 +36,13 @@ func NewMaprHandler(server string, query *mapr.Query,
 	}
 }
 
+// Shutdown the handler, but not before the server's remaining aggregation
+// data made it into the global result.
+func (h *MaprHandler) Shutdown() {
+	h.aggregate.Flush()
+	h.baseHandler.Shutdown()
+}
+
 // Read data from the dtail server via Writer interface.
 func (h *MaprHandler) Write(p []byte) (n int, err error) {
 	for _, b := range p {
